@@ -168,6 +168,20 @@ fn verif_side_c15() {
     ] {
         check("converted_operands_and_contexts", expr.to_string(), want);
     }
+    // TypeScript enum member initialisers are compiled by their own binary-operator emitter
+    for &(l, ls) in &[(-8.0f64, "-8"), (-1.0, "-1"), (2147483648.0, "2147483648"), (4294967301.0, "4294967301"), (3000000000.0, "3000000000"), (5.0, "5")] {
+        let il = to_int32_spec(l);
+        for &sft in &[0u32, 1, 2, 31] {
+            check("enum_initialiser_URShift", format!("enum E {{ A = {} >>> {} }} E.A", ls, sft), (to_uint32_spec(l) >> sft) as f64);
+            check("enum_initialiser_RShift", format!("enum E {{ A = {} >> {} }} E.A", ls, sft), (il >> sft) as f64);
+            check("enum_initialiser_LShift", format!("enum E {{ A = {} << {} }} E.A", ls, sft), il.wrapping_shl(sft) as f64);
+        }
+        check("enum_initialiser_BitOr", format!("enum E {{ A = {} | 0 }} E.A", ls), il as f64);
+        check("enum_initialiser_BitAnd", format!("enum E {{ A = {} & -1 }} E.A", ls), il as f64);
+        check("enum_initialiser_BitXor", format!("enum E {{ A = {} ^ 0 }} E.A", ls), il as f64);
+        check("enum_initialiser_BitNot", format!("enum E {{ A = ~{} }} E.A", ls), (!il) as f64);
+        check("enum_initialiser_member_reference", format!("enum E {{ A = {}, B = A >>> 1 }} E.B", ls), (to_uint32_spec(l) >> 1) as f64);
+    }
     // parseInt's radix argument is converted with ToInt32 as well
     for (radix, digits, val) in [(2f64, "10", 2f64), (36.0, "z", 35.0), (16.0, "ff", 255.0), (10.0, "42", 42.0)] {
         for wrap in [0f64, 4294967296.0, -4294967296.0, 8589934592.0, 4294967296.0 * 1048576.0] {
